@@ -43,13 +43,13 @@ def tok_obligations(tier: str, seed: int, mode: str) -> tuple[list[Obl], dict]:
         for g in groups:
             for ctx in tokctx.contexts(g[0]):
                 add(g[0], g, ctx, 0, 1, 300)
-        nrot = 3
+        nrot = 6
         for i, f in enumerate(fams):
             if i % nrot != seed % nrot:
                 continue
             for ctx in tokctx.contexts(f[0]):
                 if ctx[0] in ("empty", "between") or ctx[0].startswith(("quote", "multiword", "comment[/*]", "number-suffix")):
-                    add(f[0], f, ctx, 2, 2, 1500, pt=30.0)
+                    add(f[0], f, ctx, 2, 2, 600, pt=30.0)
     bounds = {
         "hole": "every string h over the alphabet SIGMA_d with minlen <= len(h) <= maxlen; sql = pre ++ h ++ post",
         "SIGMA_d": "every character occurring in any table of the dialect's TokenizerCore (quotes, identifiers, comments, "
